@@ -115,6 +115,33 @@ def run(ctx):
                         if name.startswith("loads") and not name.endswith("asdict") or name.startswith("load("):
                             if not canon_eq(canon(out), canon(g.asdict())) and not same_modulo_migration_order(out, g.asdict()):
                                 ctx.violation(f"{name}(format={fmt}) of the JSON dump is a different graph", case)
+        # ---- (a2) non-finite numbers that _stringify_infinities does not touch (metadata): the JSON
+        # writers must refuse them, or at least never print a non-standard token
+        for doc, g, _ in batch[:8]:
+            for bad in ({"x": math.inf}, {"x": [1, {"y": -math.inf}]}, {"x": math.nan}):
+                d = g.asdict(); d["metadata"] = copy.deepcopy(bad)
+                g2 = demes.Graph.fromdict(d)
+                for simp in (True, False):
+                    case = {"document": show(canon_doc(d)), "simplified": simp}
+                    ctx.count({"graph": show(canon(d)), "simplified": simp, "nonfinite": True}, True, tags=["json_dump_nonfinite_metadata"])
+                    outs = []
+                    try:
+                        outs.append(("dumps", demes.dumps(g2, format="json", simplified=simp)))
+                    except ValueError:
+                        pass
+                    fd, path = tempfile.mkstemp(suffix=".json"); os.close(fd)
+                    try:
+                        demes.dump(g2, path, format="json", simplified=simp)
+                        outs.append(("dump", open(path).read()))
+                    except ValueError:
+                        pass
+                    finally:
+                        os.unlink(path)
+                    for name, text in outs:
+                        try:
+                            strict_json(text)
+                        except ValueError as e:
+                            ctx.violation(f"JSON output is not strict: {e}", case, python=py_repro(d, f"demes.{name}(g, format='json', simplified={simp})"))
         # ---- (b) "Infinity" strings
         docs_b = []
         for doc, g, _ in batch[: max(10, len(batch) // 3)]:
